@@ -34,6 +34,22 @@ CLAIMED = {
         'possibly-None level. Does not decide that assignments form a '
         'root-to-leaf path nor totality beyond the None-key rule.',
         'DESIGN.md section 5, C01'),
+    'C10': (
+        'CFG must-call, encapsulation (mutation through aliases decided by '
+        'symbolic expansion, transitive purity of helpers), intra-package '
+        'escape analysis, guard/raise discipline',
+        'Decides: no TaxonomyTree exists whose stored data did not pass '
+        'the validator (validated on every constructor path, private deep '
+        'copy, no back door, state assigned only in __init__, every '
+        'factory/transform goes through the constructor); trees are '
+        'immutable after construction (no method or helper mutates '
+        'internal state or an uncopied part of it; no accessor leaks '
+        'mutable state to a caller that mutates it); every message-'
+        'building branch of the validator raises and each mandated check '
+        '(parent exists, child exists, single parent, cell in one leaf) is '
+        'present as a raising guard. Whether those checks suffice, and the '
+        'algebra of leaf pairs / inverse queries, are not decided.',
+        'DESIGN.md section 5, C10'),
     'C14': (
         'CFG acquire/release pairing, exit-code operator check, handler '
         're-raise check, dominance, HDF5 schema comparison',
